@@ -215,6 +215,18 @@ def run(tier, seed):
     rng.shuffle(d1)
     insts += [(strip_work(t), "wrapper") for t, _ in d1[:(230 if quick else 4000)]]
     insts += [(strip_work(t), "nested") for t, _ in rnd[:(120 if quick else 3000)]]
+    return _run(insts, tier, rng, full=True)
+
+
+def replay(path, tier="quick", seed=0):
+    """re-run one recorded violation: the replay file carries the abstract term of the instance."""
+    import json
+    t = json.loads(open(path).read())["replay"]["term"]
+    return _run([(t, "replay")], tier, random.Random(1000 + seed), full=False)
+
+
+def _run(insts, tier, rng, full):
+    quick = tier == "quick"
     maxn = 4 if quick else 5
     viol = []
     cases = {4: [], 5: []}
@@ -405,12 +417,12 @@ def run(tier, seed):
                     samples.append({"op": repr(op)[:200], "reps": [{k: r[k] for k in ("kind", "avail", "produced", "exc", "rel")} for r in c["reps"]],
                                     "ring_level": level, "verdicts": "ok"})
     nn = sum(len(v) for v in neg.values())
-    if nn < 10 or nneg != nn:
+    if (full and nn < 10) or nneg != nn:
         raise lib.MachineryError(f"negative controls rejected {nneg}/{nn}")
     tmp_ok = _close(np.eye(2), np.eye(2) + 1e-5)
     if tmp_ok:
         raise lib.MachineryError("comparator negative control accepted")
-    if min(rels.get(k, 0) for k in ("exact", "diag", "pauli")) < 20:
+    if full and min(rels.get(k, 0) for k in ("exact", "diag", "pauli")) < 20:
         raise lib.MachineryError(f"vacuity: too few exact relations decided {rels}")
     cov = {"states": tl["distinct"], "transitions": tl["generated"], "traces_validated_against_impl": stats["instances"],
            "evaluations": n_flags + n_num, "distinct_nontrivial": len(nontriv),
